@@ -55,7 +55,7 @@ func PrepareHarness(s *build.Scratch, pkgs ...string) error {
 		return build.Toolf("harness: %v", err)
 	}
 	var sb strings.Builder
-	sb.WriteString("module simh\n\ngo 1.25\n\nrequire github.com/ogen-go/ogen v0.0.0\n\nreplace github.com/ogen-go/ogen => ../ogen\n\n")
+	sb.WriteString("module simh\n\ngo 1.23.0\n\nrequire github.com/ogen-go/ogen v0.0.0\n\nreplace github.com/ogen-go/ogen => ../ogen\n\n")
 	// copy ogen's require blocks so that every dependency version is pinned to what ogen uses
 	lines := strings.Split(string(gomod), "\n")
 	in := false
